@@ -114,6 +114,12 @@ func C13(p *core.Program, r *core.Report) {
 
 	// ---- L1 / L2
 	nRegions := 0
+	type mapAccess struct {
+		field          string
+		write, inLog   bool
+		fn, pos, canon string
+	}
+	var mapAccesses []mapAccess
 	for _, fn := range p.ModFunctions(false) {
 		if strings.Contains(fn.String(), "distillerLogger") {
 			continue // the predicates' own implementation
@@ -153,6 +159,7 @@ func C13(p *core.Program, r *core.Report) {
 			}
 		}
 		// L2: regions
+		logBlocks := map[*ssa.BasicBlock]bool{} // union of the log regions of fn
 		for _, b := range fn.Blocks {
 			if len(b.Instrs) == 0 {
 				continue
@@ -179,6 +186,9 @@ func C13(p *core.Program, r *core.Report) {
 				}
 			}
 			nRegions++
+			for blk := range region {
+				logBlocks[blk] = true
+			}
 			key := fmt.Sprintf("%s: log region of %s", core.ShortKey(fn), blockDesc(p, b))
 			var problems []string
 			inRegion := func(v ssa.Value) bool {
@@ -277,7 +287,65 @@ func C13(p *core.Program, r *core.Report) {
 			sort.Strings(problems)
 			r.Add("L2", key, blockPos(p, b), len(problems) == 0, fmt.Sprintf("%d blocks in the region", len(region)), problems...)
 		}
+		// L2 (converse), collected here and judged below: map-typed struct fields that are only
+		// ever updated inside log regions hold entries only when logging is enabled, so whatever
+		// reads them outside a log region lets the log flag steer the normal flow
+		for _, b := range fn.Blocks {
+			for _, in := range b.Instrs {
+				var m ssa.Value
+				write := false
+				switch x := in.(type) {
+				case *ssa.MapUpdate:
+					m, write = x.Map, true
+				case *ssa.Lookup:
+					m = x.X
+				case *ssa.Range:
+					m = x.X
+				case *ssa.Call:
+					if bi, ok := x.Call.Value.(*ssa.Builtin); ok && bi.Name() == "len" && len(x.Call.Args) == 1 {
+						m = x.Call.Args[0]
+					}
+				}
+				if m == nil {
+					continue
+				}
+				if _, isMap := m.Type().Underlying().(*types.Map); !isMap {
+					continue
+				}
+				ld, ok := core.StripConv(m).(*ssa.UnOp)
+				if !ok {
+					continue
+				}
+				fa, ok := ld.X.(*ssa.FieldAddr)
+				if !ok || core.NamedOf(fa.X.Type()) == nil {
+					continue
+				}
+				key := fmt.Sprintf("%s#%d", core.NamedOf(fa.X.Type()).String(), fa.Field)
+				mapAccesses = append(mapAccesses, mapAccess{key, write, logBlocks[b], core.ShortKey(fn), p.Pos(in.Pos()), core.NewCanon(p).Of(m)})
+			}
+		}
 	}
+	debugOnly := map[string]bool{}
+	for _, a := range mapAccesses {
+		if a.write {
+			if _, seen := debugOnly[a.field]; !seen {
+				debugOnly[a.field] = true
+			}
+			if !a.inLog {
+				debugOnly[a.field] = false
+			}
+		}
+	}
+	nDebugReads := 0
+	for _, a := range mapAccesses {
+		if a.write || !debugOnly[a.field] {
+			continue
+		}
+		nDebugReads++
+		r.Add("L2", fmt.Sprintf("%s: read of debug state %s", a.fn, shortVal(a.canon)), a.pos, a.inLog,
+			"this map is only filled when logging is enabled: a read outside a log region makes the result depend on the log flag")
+	}
+	r.Add("L2", "reads of maps that are only filled by logging code examined", "", nDebugReads >= 2, fmt.Sprintf("%d reads", nDebugReads))
 	r.Stats["log_regions"] = nRegions
 	r.Floor("L2", 10)
 
